@@ -372,6 +372,168 @@ theorem fortran_number_sound (s : Str) (v : Dec) (h : convertFortran s = .ok v) 
         · rw [if_neg hd] at h
           simp at h
 
+/-- **fortran_number_complete.** Every documented number form (plain, E/e, D/d with any
+    signs, short form `m±e`, lone sign) is accepted with its documented value. -/
+theorem fortran_number_complete (s : Str) (v : Dec) (h : specNumber s = some v) : convertFortran s = .ok v := by
+  by_cases hl : (s = ['+'] ∨ s = ['-'])
+  · rcases hl with rfl | rfl
+    · have : v = ⟨false, 0, 0⟩ := by simp [specNumber] at h; exact h.symm
+      subst this; decide
+    · have : v = ⟨false, 0, 0⟩ := by simp [specNumber] at h; exact h.symm
+      subst this; decide
+  · have hl' : ¬ (decide (s = ['+']) || decide (s = ['-'])) = true := by simpa using hl
+    rw [specNumber_eq s hl] at h
+    obtain ⟨pre, hpre⟩ := takeSign_suffix s
+    have hpf := pyFloat_eq s
+    have hts_map := takeSign_map_fD s
+    -- how `shortForm` looks at the sign
+    have hshort : ∀ t, shortTry (if (takeSign s).1 then some '-' else none) (takeSign s).2 = some t →
+        (takeSign s).1 = true ∨ (∀ c r, (takeSign s).2 = c :: r → isSign c = false) → True := fun _ _ _ => trivial
+    clear hshort
+    generalize hneg : (takeSign s).1 = neg at h hpf hts_map
+    generalize hs1 : (takeSign s).2 = s1 at h hpf hts_map hpre
+    unfold specTail at h
+    cases hm : scanMant s1 with
+    | none => simp [hm] at h
+    | some t3 =>
+      obtain ⟨ip, fp, rest⟩ := t3
+      simp only [hm] at h
+      cases rest with
+      | nil =>
+        simp only [Option.some.injEq] at h
+        have : pyFloat s = some v := by
+          rw [hpf]; unfold pyTail; simp only [hm]; rw [h]
+        unfold convertFortran; simp only [this]
+      | cons x r =>
+        simp only at h
+        by_cases hxe : (decide (x = 'e') || decide (x = 'E')) = true
+        · -- E exponent: float() itself
+          have hx4 : (decide (x = 'e') || decide (x = 'E') || decide (x = 'd') || decide (x = 'D')) = true := by
+            simp only [Bool.or_eq_true] at hxe ⊢; exact Or.inl (Or.inl hxe)
+          rw [if_pos hx4] at h
+          have : pyFloat s = some v := by
+            rw [hpf]; unfold pyTail; simp only [hm]; rw [if_pos hxe]; exact h
+          unfold convertFortran; simp only [this]
+        · have hpnone : pyFloat s = none := by
+            rw [hpf]; unfold pyTail; simp only [hm]; rw [if_neg hxe]
+          by_cases hxd : (decide (x = 'd') || decide (x = 'D')) = true
+          · -- D exponent: the replacement branch
+            have hx4 : (decide (x = 'e') || decide (x = 'E') || decide (x = 'd') || decide (x = 'D')) = true := by
+              simp only [Bool.or_eq_true, decide_eq_true_eq] at hxd ⊢
+              rcases hxd with h1 | h1 <;> simp [h1]
+            rw [if_pos hx4] at h
+            cases he : scanExp r with
+            | none => simp [he] at h
+            | some e =>
+              simp only [he, Option.some.injEq] at h
+              obtain ⟨M, hM, _⟩ := scanMant_split s1 ip fp (x :: r) hm
+              have hxD : isDch x = true := by
+                simp only [Bool.or_eq_true, decide_eq_true_eq] at hxd
+                rcases hxd with h1 | h1 <;> simp [isDch, h1]
+              have hany : s.any isDch = true := by
+                rw [hpre, hM]; simp [List.any_append, hxD]
+              have hrx : replD x = 'e' := by
+                rcases fD_cases x with ⟨_, h1, h2⟩ | ⟨h1, _⟩
+                · simp only [Bool.or_eq_true, decide_eq_true_eq] at hxd
+                  rcases hxd with h3 | h3
+                  · exact absurd h3 h2
+                  · exact absurd h3 h1
+                · exact h1
+              have hpd : pyFloat (s.map replD) = some v := by
+                rw [pyFloat_eq, hts_map]
+                simp only
+                unfold pyTail
+                rw [scanMant_map_fD, hm]
+                simp only [Option.map_some, List.map_cons, hrx]
+                have hE : (decide True || decide ('e' = 'E')) = true := by decide
+                rw [if_pos hE, scanExp_map_fwd r e he]
+                dsimp only
+                rw [h]
+              unfold convertFortran
+              simp only [hpnone]
+              rw [if_neg hl', shortForm_none_of_D s hany]
+              simp only
+              have hany' : (s.any fun c => decide (c = 'D') || decide (c = 'd')) = true := hany
+              rw [if_pos hany', hpd]
+          · -- short form
+            have hx4 : ¬ (decide (x = 'e') || decide (x = 'E') || decide (x = 'd') || decide (x = 'D')) = true := by
+              simp only [Bool.or_eq_true, decide_eq_true_eq, not_or] at hxe hxd ⊢
+              exact ⟨⟨⟨hxe.1, hxe.2⟩, hxd.1⟩, hxd.2⟩
+            rw [if_neg hx4] at h
+            by_cases hsx : isSign x = true
+            · rw [if_pos hsx] at h
+              cases h1 : r.isEmpty with
+              | true => simp [h1] at h
+              | false =>
+                cases h2 : r.all isDig with
+                | false => simp [h1, h2] at h
+                | true =>
+                  simp only [h1, h2] at h
+                  simp only [Bool.not_true, Bool.or_false, Bool.false_eq_true, if_false, Option.some.injEq] at h
+                  obtain ⟨M, hM, hMn⟩ := scanMant_split s1 ip fp (x :: r) hm
+                  have hx' : x = '+' ∨ x = '-' := by simpa [isSign] using hsx
+                  have hxd1 : isDig x = false := by rcases hx' with rfl | rfl <;> decide
+                  have hxd2 : x ≠ '.' := by rcases hx' with rfl | rfl <;> decide
+                  have hmM : scanMant M = some (ip, fp, []) :=
+                    scanMant_of_append M x r ip fp hxd1 hxd2 (by rw [← hM]; exact hm)
+                  -- the text handed to float() and its value
+                  have hval := pyFloat_shortText neg M x r ip fp hMn hmM hsx h1 h2
+                  rw [h] at hval
+                  -- shortForm s
+                  have hsf : shortForm s = some ((if neg then ['-'] else []) ++ M ++ ['E', x] ++ r) := by
+                    cases s with
+                    | nil =>
+                      have : s1 = [] := by rw [← hs1]; simp [takeSign]
+                      rw [this] at hM; simp at hM
+                    | cons c0 r0 =>
+                      unfold shortForm
+                      dsimp only
+                      by_cases hsg : isSign c0 = true
+                      · have hc' : c0 = '+' ∨ c0 = '-' := by simpa [isSign] using hsg
+                        have hts : takeSign (c0 :: r0) = (decide (c0 = '-'), r0) := by
+                          rcases hc' with rfl | rfl <;> simp [takeSign]
+                        rw [hts] at hneg hs1
+                        simp only at hneg hs1
+                        rw [if_pos hsg, hs1, hM, shortTry_complete (some c0) M x r hMn hsx h2]
+                        simp only
+                        rcases hc' with rfl | rfl <;> simp [← hneg]
+                      · have hsg' : isSign c0 = false := by simpa using hsg
+                        rw [takeSign_not_sign c0 r0 hsg'] at hneg hs1
+                        simp only at hneg hs1
+                        simp only [hsg']
+                        rw [hs1, hM, shortTry_complete none M x r hMn hsx h2]
+                        simp [← hneg]
+                  unfold convertFortran
+                  simp only [hpnone]
+                  rw [if_neg hl', hsf]
+                  simp only [hval]
+            · rw [if_neg hsx] at h
+              simp at h
+
+
+/-- **fortran_number_spec.** `convert_fortran_number` (after fix d532311) accepts exactly the
+    documented number grammar, with the documented value: for every item text. -/
+theorem fortran_number_spec (s : Str) (v : Dec) : convertFortran s = .ok v ↔ specNumber s = some v :=
+  ⟨fortran_number_sound s v, fortran_number_complete s v⟩
+
+/-- everything outside the documented grammar is refused -/
+theorem fortran_number_rejects (s : Str) : convertFortran s = .error .valueError ↔ specNumber s = none := by
+  constructor
+  · intro h
+    cases hs : specNumber s with
+    | none => rfl
+    | some v =>
+      have := fortran_number_complete s v hs
+      rw [h] at this
+      cases this
+  · intro h
+    cases hc : convertFortran s with
+    | ok v =>
+      have := fortran_number_sound s v hc
+      rw [h] at this
+      cases this
+    | error e => cases e; rfl
+
 /-- a lone sign is 0 -/
 theorem lone_sign_zero :
     convertFortran ['+'] = .ok ⟨false, 0, 0⟩ ∧ convertFortran ['-'] = .ok ⟨false, 0, 0⟩ := by decide
